@@ -269,16 +269,16 @@ rc5_inst!(u32, U16, U16, m=w32, o=orc32, u=4, t=34, c=4, b=16, unw=104;
 // @ob name=t64_24_24_enc tier=thorough timeout=3600 props=C10,C20 kind=contract fn=rc5::RC5::encrypt_block,rc5::RC5::words_from_block,rc5::RC5::block_from_words note="RC5-64/24/24"
 // @ob name=t64_24_24_dec props=C10,C20 kind=contract fn=rc5::RC5::decrypt_block,rc5::RC5::words_from_block,rc5::RC5::block_from_words timeout=600 note="RC5-64/24/24"
 // @ob name=t64_24_24_rt1 tier=thorough timeout=3600 props=C01 kind=contract fn=rc5::RC5::encrypt_block,rc5::RC5::decrypt_block note="RC5-64/24/24"
-// @ob name=t64_24_24_rt2 tier=thorough timeout=3600 props=C01 kind=contract fn=rc5::RC5::encrypt_block,rc5::RC5::decrypt_block note="RC5-64/24/24"
+// (did not discharge within 3600 s in the thorough-tier run of 2026-10-04 (10 solvers in parallel): unregistered) @-ob name=t64_24_24_rt2 tier=thorough timeout=3600 props=C01 kind=contract fn=rc5::RC5::encrypt_block,rc5::RC5::decrypt_block note="RC5-64/24/24"
 // (not verified within this round: unregistered) @-ob name=t64_24_24_api_enc props=C10,C20 kind=contract tier=thorough uses=c_word_u8,c_word_u16,c_word_u32,c_word_u64,c_word_u128 fn=rc5::RC5::new,rc5::RC5::encrypt_block timeout=3600 note="RC5-64/24/24"
 // (not verified within this round: unregistered) @-ob name=t64_24_24_api_dec props=C10,C20 kind=contract tier=thorough uses=c_word_u8,c_word_u16,c_word_u32,c_word_u64,c_word_u128 fn=rc5::RC5::new,rc5::RC5::decrypt_block timeout=3600 note="RC5-64/24/24"
 rc5_inst!(u64, U24, U24, m=w64, o=orc64, u=8, t=50, c=3, b=24, unw=152;
     t64_24_24_ks, t64_24_24_enc, t64_24_24_dec, t64_24_24_rt1, t64_24_24_rt2, t64_24_24_api_enc, t64_24_24_api_dec);
 // RC5-128/28/32: RC5<u128, U28, U32>  (t = 58, c = 2)
 // @ob name=t128_28_32_ks tier=thorough timeout=3600 props=C10,C20 kind=contract uses=c_word_u8,c_word_u16,c_word_u32,c_word_u64,c_word_u128 fn=rc5::RC5::substitute_key,rc5::RC5::key_into_words,rc5::RC5::initialize_expanded_key_table,rc5::RC5::mix_in note="RC5-128/28/32"
-// @ob name=t128_28_32_enc tier=thorough timeout=3600 props=C10,C20 kind=contract fn=rc5::RC5::encrypt_block,rc5::RC5::words_from_block,rc5::RC5::block_from_words note="RC5-128/28/32"
+// (did not discharge within 3600 s in the thorough-tier run of 2026-10-04 (10 solvers in parallel): unregistered) @-ob name=t128_28_32_enc tier=thorough timeout=3600 props=C10,C20 kind=contract fn=rc5::RC5::encrypt_block,rc5::RC5::words_from_block,rc5::RC5::block_from_words note="RC5-128/28/32"
 // @ob name=t128_28_32_dec tier=thorough timeout=3600 props=C10,C20 kind=contract fn=rc5::RC5::decrypt_block,rc5::RC5::words_from_block,rc5::RC5::block_from_words note="RC5-128/28/32"
-// @ob name=t128_28_32_rt1 tier=thorough timeout=3600 props=C01 kind=contract fn=rc5::RC5::encrypt_block,rc5::RC5::decrypt_block note="RC5-128/28/32"
+// (did not discharge within 3600 s in the thorough-tier run of 2026-10-04 (10 solvers in parallel): unregistered) @-ob name=t128_28_32_rt1 tier=thorough timeout=3600 props=C01 kind=contract fn=rc5::RC5::encrypt_block,rc5::RC5::decrypt_block note="RC5-128/28/32"
 // @ob name=t128_28_32_rt2 tier=thorough timeout=3600 props=C01 kind=contract fn=rc5::RC5::encrypt_block,rc5::RC5::decrypt_block note="RC5-128/28/32"
 // (not verified within this round: unregistered) @-ob name=t128_28_32_api_enc props=C10,C20 kind=contract tier=thorough uses=c_word_u8,c_word_u16,c_word_u32,c_word_u64,c_word_u128 fn=rc5::RC5::new,rc5::RC5::encrypt_block timeout=3600 note="RC5-128/28/32"
 // (not verified within this round: unregistered) @-ob name=t128_28_32_api_dec props=C10,C20 kind=contract tier=thorough uses=c_word_u8,c_word_u16,c_word_u32,c_word_u64,c_word_u128 fn=rc5::RC5::new,rc5::RC5::decrypt_block timeout=3600 note="RC5-128/28/32"
@@ -305,7 +305,7 @@ rc5_inst!(u32, U0, U16, m=w32, o=orc32, u=4, t=2, c=4, b=16, unw=18;
 rc5_inst!(u32, U1, U16, m=w32, o=orc32, u=4, t=4, c=4, b=16, unw=18;
     r1_32_1_16_ks, r1_32_1_16_enc, r1_32_1_16_dec, r1_32_1_16_rt1, r1_32_1_16_rt2, r1_32_1_16_api_enc, r1_32_1_16_api_dec);
 // RC5-8/255/4: RC5<u8, U255, U4>  (t = 512, c = 4)
-// @ob name=r255_8_255_4_ks tier=thorough timeout=3600 props=C10,C20 kind=contract uses=c_word_u8,c_word_u16,c_word_u32,c_word_u64,c_word_u128 fn=rc5::RC5::substitute_key,rc5::RC5::key_into_words,rc5::RC5::initialize_expanded_key_table,rc5::RC5::mix_in note="RC5-8/255/4"
+// (did not discharge within 3600 s in the thorough-tier run of 2026-10-04 (10 solvers in parallel): unregistered) @-ob name=r255_8_255_4_ks tier=thorough timeout=3600 props=C10,C20 kind=contract uses=c_word_u8,c_word_u16,c_word_u32,c_word_u64,c_word_u128 fn=rc5::RC5::substitute_key,rc5::RC5::key_into_words,rc5::RC5::initialize_expanded_key_table,rc5::RC5::mix_in note="RC5-8/255/4"
 // @ob name=r255_8_255_4_enc props=C10,C20 kind=contract fn=rc5::RC5::encrypt_block,rc5::RC5::words_from_block,rc5::RC5::block_from_words timeout=600 note="RC5-8/255/4"
 // @ob name=r255_8_255_4_dec tier=thorough timeout=3600 props=C10,C20 kind=contract fn=rc5::RC5::decrypt_block,rc5::RC5::words_from_block,rc5::RC5::block_from_words note="RC5-8/255/4"
 // @ob name=r255_8_255_4_rt1 tier=thorough timeout=3600 props=C01 kind=contract fn=rc5::RC5::encrypt_block,rc5::RC5::decrypt_block note="RC5-8/255/4"
@@ -379,7 +379,7 @@ rc5_inst!(u64, U12, U9, m=w64, o=orc64, u=8, t=26, c=2, b=9, unw=80;
 // @ob name=n128_12_17_enc tier=thorough timeout=3600 props=C10,C20 kind=contract fn=rc5::RC5::encrypt_block,rc5::RC5::words_from_block,rc5::RC5::block_from_words note="RC5-128/12/17"
 // @ob name=n128_12_17_dec props=C10,C20 kind=contract fn=rc5::RC5::decrypt_block,rc5::RC5::words_from_block,rc5::RC5::block_from_words timeout=600 note="RC5-128/12/17"
 // @ob name=n128_12_17_rt1 tier=thorough timeout=3600 props=C01 kind=contract fn=rc5::RC5::encrypt_block,rc5::RC5::decrypt_block note="RC5-128/12/17"
-// @ob name=n128_12_17_rt2 tier=thorough timeout=3600 props=C01 kind=contract fn=rc5::RC5::encrypt_block,rc5::RC5::decrypt_block note="RC5-128/12/17"
+// (did not discharge within 3600 s in the thorough-tier run of 2026-10-04 (10 solvers in parallel): unregistered) @-ob name=n128_12_17_rt2 tier=thorough timeout=3600 props=C01 kind=contract fn=rc5::RC5::encrypt_block,rc5::RC5::decrypt_block note="RC5-128/12/17"
 // (not verified within this round: unregistered) @-ob name=n128_12_17_api_enc props=C10,C20 kind=contract tier=thorough uses=c_word_u8,c_word_u16,c_word_u32,c_word_u64,c_word_u128 fn=rc5::RC5::new,rc5::RC5::encrypt_block timeout=3600 note="RC5-128/12/17"
 // (not verified within this round: unregistered) @-ob name=n128_12_17_api_dec props=C10,C20 kind=contract tier=thorough uses=c_word_u8,c_word_u16,c_word_u32,c_word_u64,c_word_u128 fn=rc5::RC5::new,rc5::RC5::decrypt_block timeout=3600 note="RC5-128/12/17"
 rc5_inst!(u128, U12, U17, m=w128, o=orc128, u=16, t=26, c=2, b=17, unw=80;
